@@ -6,4 +6,5 @@ INVARIANT InvNorm
 INVARIANT InvQuoteExact
 INVARIANT InvQuoteNote
 INVARIANT InvNoteOption
+INVARIANT InvSqlNeutral
 CHECK_DEADLOCK FALSE
